@@ -99,7 +99,7 @@ def gen_case(rng, kind, d, m, n, want):
 
 def gen_cases(rng, tier):
     cases = []
-    reps = 6 if tier == "quick" else 20
+    reps = 6 if tier == "quick" else 60
     plan = {"ode": [{"ic"}, {"obs"}, {"ic", "obs"}, {"ic", "obs", "dyn"}],
             "statio": [{"norm"}, {"obs"}, {"norm", "obs"}],
             "nonstatio": [{"ic"}, {"norm"}, {"obs"}, {"ic", "norm", "obs"}]}
